@@ -293,11 +293,26 @@ func inlinedArgs(p *ssa.Parameter) []ssa.Value {
 	}
 	var out []ssa.Value
 	for _, s := range inl.sites[f] {
+		if hostCtx != nil && !InBody(hostCtx, s.Parent()) {
+			continue
+		}
 		if idx < len(s.Call.Args) {
 			out = append(out, s.Call.Args[idx])
 		}
 	}
 	return out
+}
+
+// hostCtx, when set, is the anchored function a rule is looking at: parameters of helpers that are inlined into
+// several hosts are then bound to the arguments of the call sites inside this host only.
+var hostCtx *ssa.Function
+
+// WithHost runs fn with the given function as the host context of Origins / OriginCalls / HasOrigin.
+func WithHost(host *ssa.Function, fn func()) {
+	saved := hostCtx
+	hostCtx = host
+	defer func() { hostCtx = saved }()
+	fn()
 }
 
 // inlinedResults returns the values an inlined call yields for result index idx (-1: single result / all).
@@ -342,4 +357,43 @@ func WithoutInlining(fn func()) {
 	inl = nil
 	defer func() { inl = saved }()
 	fn()
+}
+
+// queryRoots: the entries a dominance / guard question about an instruction of f starts from: the host a rule is
+// looking at (WithHost) when f is part of it, otherwise all top-level hosts of f.
+func queryRoots(f *ssa.Function) []*ssa.Function {
+	if hostCtx != nil && InBody(hostCtx, f) {
+		return []*ssa.Function{hostCtx}
+	}
+	return Roots(f)
+}
+
+// Spawned lists the functions that f (or a helper inlined into it) starts with a go statement: closures and
+// named functions alike.
+func Spawned(f *ssa.Function) []*ssa.Function {
+	var out []*ssa.Function
+	seen := map[*ssa.Function]bool{}
+	for _, b := range Blocks(f) {
+		for _, in := range b.Instrs {
+			g, ok := in.(*ssa.Go)
+			if !ok {
+				continue
+			}
+			var t *ssa.Function
+			switch v := g.Call.Value.(type) {
+			case *ssa.Function:
+				t = v
+			case *ssa.MakeClosure:
+				t, _ = v.Fn.(*ssa.Function)
+			}
+			if t == nil {
+				t = g.Call.StaticCallee()
+			}
+			if t != nil && t.Blocks != nil && !seen[t] {
+				seen[t] = true
+				out = append(out, t)
+			}
+		}
+	}
+	return out
 }
